@@ -538,3 +538,77 @@ func checkLin(d *Driver, res *Result) {
 	res.Sample = fmt.Sprintf("%d clients, %d operations on shared keys (%d with unknown outcome, %d error replies), %d concurrent same-key pairs, %d redirects, first ops: %s",
 		len(d.Clients), len(ops), unknown, errs, conc, d.C.Redirects, strings.Join(descr, " "))
 }
+
+// ---- C10redir: order at the final node among requests of one client that were redirected along the same path ----
+//
+// C10 speaks about the order in which one client's requests arrive at a node. With redirects in play the order between a
+// redirected request and one that went to the node directly is not determined (the former needs an extra round trip), but
+// two requests of one client that node A redirects to node B - A answers in order, one connection per node - must arrive
+// at B in the order sent. Generator: the redirect profile (stale view, MOVED and ASK), one connection per node.
+
+func init() {
+	register(&Profile{Name: "C10redir", Prop: "C10", Gen: func(g *Gen) {
+		genC13(g)
+		g.Plan.Proxy.ServerConns = 1
+		g.Plan.Proxy.TimeoutMs = 0
+	}, Check: checkC10redir})
+}
+
+func checkC10redir(d *Driver, res *Result) {
+	// per request token prefix (c<i>r<j>): the nodes that redirected it and the node that finally executed it
+	type hist struct {
+		redirs []string
+		final  string
+		at     int // position of the executing record in the global backend log
+		name   string
+	}
+	reqs := map[string]*hist{}
+	for idx, r := range d.C.Log {
+		if (r.Kind != "data" && r.Kind != "redirect") || len(r.Tokens) == 0 {
+			continue
+		}
+		ci, ri := reqIndexOfToken(r.Tokens[0])
+		c := d.Clients[ci]
+		if ri >= len(c.Plan.Reqs) || c.Plan.Reqs[ri].Class != "single" {
+			continue // fragments of split requests share a token prefix; keep the oracle to single-key requests
+		}
+		k := Tok(ci, ri)
+		h := reqs[k]
+		if h == nil {
+			h = &hist{}
+			reqs[k] = h
+		}
+		if r.Kind == "redirect" {
+			h.redirs = append(h.redirs, r.Node)
+		} else {
+			h.final, h.at, h.name = r.Node, idx, r.Name
+		}
+	}
+	type path struct {
+		ci       int
+		from, to string
+	}
+	last := map[path][2]int{} // request index, log position
+	pairs := 0
+	for ci, c := range d.Clients {
+		for ri := range c.Plan.Reqs {
+			h := reqs[Tok(ci, ri)]
+			if h == nil || h.final == "" || len(h.redirs) != 1 {
+				continue
+			}
+			p := path{ci, h.redirs[0], h.final}
+			if prev, ok := last[p]; ok {
+				pairs++
+				if h.at < prev[1] {
+					d.violate("C10", "order-at-node", map[string]string{"how": "after-redirect"},
+						"client %d: requests %d and %d were both redirected by %s to %s, which executed request %d (%s) before request %d", ci, prev[0], ri, p.from, p.to, ri, h.name, prev[0])
+					return
+				}
+			}
+			last[p] = [2]int{ri, h.at}
+		}
+	}
+	d.Counters["c10_redirected_same_path_pairs"] = pairs
+	res.Nontrivial = pairs > 0
+	res.Sample = fmt.Sprintf("%d clients, %d requests, %d pairs of consecutive same-path redirected requests, %d redirects", len(d.Clients), totalReqs(d), pairs, d.C.Redirects)
+}
